@@ -71,9 +71,35 @@ fn ref_quat(x: f64, y: f64, z: f64) -> [f64; 4] {
 }
 
 fn extract_f64(d: &mut Draw) -> Outcome {
-    let kind = d.int(0, 9);
+    let kind = d.int(0, 11);
+    let mut structured = false;
     let u: [f64; 4] = match kind {
         0..=2 => f_unit_quat(d),
+        10 | 11 => {
+            // exact zeros: a pure rotation about one coordinate axis (angle over two full turns, so that the scalar
+            // part takes both signs), or a quaternion with one vanishing component
+            structured = true;
+            let h = d.f64_in(-PI, PI);
+            let (c, sn) = (h.cos(), h.sin());
+            match d.int(0, 6) {
+                0 => [c, sn, 0.0, 0.0],
+                1 => [c, 0.0, sn, 0.0],
+                2 => [c, 0.0, 0.0, sn],
+                3 => [0.0, c, sn, 0.0],
+                4 => [0.0, 0.0, c, sn],
+                5 => {
+                    let k = d.below(4);
+                    let mut e = [0.0; 4];
+                    e[k] = 1.0;
+                    e
+                }
+                _ => {
+                    let mut g = f_unit_quat(d);
+                    g[d.below(4)] = 0.0;
+                    fnormalize4(&g)
+                }
+            }
+        }
         3..=5 => {
             // y concentrated near +-pi/2 (cubic density)
             let t = d.unit();
@@ -140,7 +166,7 @@ fn extract_f64(d: &mut Draw) -> Outcome {
         if let Err(m) = regular_ok() {
             return Outcome::Fail { sig: "regular", msg: format!("|sin y| = {} <= 0.998: {}", s.abs(), m) };
         }
-        pass(if s.abs() > 0.9 { "regular-near-cone" } else { "regular" }, true)
+        pass(if structured { "regular-exact-zeros" } else if s.abs() > 0.9 { "regular-near-cone" } else { "regular" }, true)
     } else {
         if let Err(m) = cone_ok() {
             return Outcome::Fail { sig: "cone", msg: format!("|sin y| = {} > 0.998: {}", s.abs(), m) };
@@ -159,7 +185,7 @@ pub fn property() -> Property {
     add!("euler_to_rotation-Q", "Q", to_rot_q, 5000, 300_000, 24, &[("generic", 200)], "sin and cos of all three angles non-zero with |sin| != |cos|");
     add!("euler_to_rotation-f64", "f64", to_rot_f64, 8000, 500_000, 16, &[("rad", 200), ("deg", 200)], "every generated triple (angles in +-7 rad) is non-trivial");
     add!("quaternion_to_euler-f64", "f64", extract_f64, 20000, 1_000_000, 24,
-        &[("regular", 100), ("regular-near-cone", 50), ("cone+", 50), ("cone-", 50), ("boundary", 20)],
+        &[("regular", 100), ("regular-exact-zeros", 60), ("regular-near-cone", 50), ("cone+", 50), ("cone-", 50), ("boundary", 20)],
         "every generated unit quaternion; classes regular / near-cone / cone+ / cone- / boundary band are all required");
     Property {
         id: "C07",
